@@ -11,6 +11,7 @@ if "--merge" in args:
     rows = []
     for f in sorted(glob.glob(os.path.join(here, "seeded", ".regress-*.jsonl"))):
         rows += [json.loads(l) for l in open(f) if l.strip()]
+    rows = list({r["seeded"]: r for r in rows}.values())  # a change evaluated twice: the later row wins
     rows.sort(key=lambda r: (r["seeded"].split("-")[0], int(r["seeded"].split("-")[1])))
     json.dump(rows, open(os.path.join(here, "seeded", "REGRESSION.json"), "w"), indent=1)
     print(len(rows), "rows; not caught by own check:", [r["seeded"] for r in rows if r.get("exit") != 1])
